@@ -18,8 +18,8 @@ ASSUMPTIONS = [
     "values of abstractly spelled collection types are instances of the documented concrete builtin (Sequence -> list ...)",
     "one-shot iterator inputs are not re-fed for the idempotence form (their first result is a concrete container, which is)",
 ]
-PLAN = {"quick": dict(programs=1200, depth=3, values=8, pool=8), "thorough": dict(programs=40000, depth=4, values=12, pool=16)}
-FLOORS = {"quick": {"passthrough_checked": 20000, "idempotence_checked": 20000, "shapes": 1500},
+PLAN = {"quick": dict(programs=4000, depth=3, values=8, pool=8), "thorough": dict(programs=40000, depth=4, values=12, pool=16)}
+FLOORS = {"quick": {"passthrough_checked": 80000, "idempotence_checked": 300000, "shapes": 4000},
           "thorough": {"passthrough_checked": 800000, "idempotence_checked": 800000, "shapes": 30000}}
 
 
@@ -111,7 +111,4 @@ def run_case(sh, i, plan):
 
 def run_shard(sh):
     plan = PLAN[sh.tier]
-    n = per_shard(plan["programs"], sh.nshards, sh.shard)
-    for i in range(n):
-        if sh.begin_case(i):
-            run_case(sh, i, plan)
+    sh.run_cases(per_shard(plan["programs"], sh.nshards, sh.shard), lambda i: run_case(sh, i, plan))
